@@ -359,11 +359,78 @@ def _bool_edge_matches(body, local, edge_val, pred_desc, polarity, depth=0):
             for inner in d[1]:
                 if pred_desc(inner) and (not edge_val) == polarity:
                     return True
-                if inner[0] == "not":
-                    pass
         elif pred_desc(d) and edge_val == polarity:
             return True
+    # `let c = a && b; if c {..}`: c is assigned `false` where a is false and `b` where a is true, so c == true implies a (and b).
+    if depth < 3:
+        for (dd, pol) in implied_when(body, local, edge_val):
+            if pol == polarity and pred_desc(dd):
+                return True
     return False
+
+
+def implied_when(body, local, value):
+    """[(desc item, polarity)] facts that hold whenever bool `local` has `value`, derived from where its possible values are assigned:
+    every assignment that can produce `value` sits under the fact's edge. (Handles conditions bound to a local before being tested.)"""
+    pv = body.prov
+    defs = [d for d in pv.defs.get(local, ()) if d[0] in ("assign", "call")]
+    if len(defs) < 2:
+        # a plain copy of another local: look through it
+        if len(defs) == 1 and defs[0][0] == "assign":
+            rv = defs[0][1]["rv"]
+            if rv["k"] == "use" and rv["op"]["k"] in ("copy", "move") and not rv["op"]["place"]["proj"]:
+                return implied_when(body, rv["op"]["place"]["local"], value)
+        return []
+    producing = []
+    for kind, x, bb in defs:
+        if kind == "assign" and x["rv"]["k"] == "use" and x["rv"]["op"]["k"] == "const":
+            cv = x["rv"]["op"]["val"]
+            if (cv == "true") != value:
+                continue  # this assignment cannot produce `value`
+        producing.append((kind, x, bb))
+    if not producing:
+        return []
+    common = None
+    for kind, x, bb in producing:
+        facts = set()
+        for e in body.edges:
+            l = e.label
+            if l and l[0] == "bool" and l[2] is not None and bb in body.dominated_by_edge(e):
+                for d in bool_atom_desc(body, l[2]):
+                    if d[0] == "not":
+                        for inner in d[1]:
+                            facts.add((_freeze(inner), not l[1]))
+                    else:
+                        facts.add((_freeze(d), l[1]))
+        # the assigned value itself, when it is the value being asked for
+        if kind == "call" or (kind == "assign" and not (x["rv"]["k"] == "use" and x["rv"]["op"]["k"] == "const")):
+            own = [call_desc(body, x, bb)] if kind == "call" else []
+            if kind == "assign":
+                rv = x["rv"]
+                if rv["k"] == "use" and rv["op"]["k"] in ("copy", "move"):
+                    own = bool_atom_desc(body, rv["op"]["place"]["local"]) if not place_fields(rv["op"]["place"]) else [("field", place_fields(rv["op"]["place"])[-1], tuple(place_fields(rv["op"]["place"])), bb)]
+            for d in own:
+                if d[0] == "not":
+                    for inner in d[1]:
+                        facts.add((_freeze(inner), not value))
+                else:
+                    facts.add((_freeze(d), value))
+        common = facts if common is None else (common & facts)
+    return [(_thaw(d), pol) for (d, pol) in (common or ())]
+
+
+def _freeze(d):
+    if isinstance(d, (list, tuple)):
+        return tuple(_freeze(x) for x in d)
+    if isinstance(d, (set, frozenset)):
+        return frozenset(_freeze(x) for x in d)
+    if isinstance(d, dict):
+        return ("<dict>", id(d))
+    return d
+
+
+def _thaw(d):
+    return d
 
 
 def bool_edges(body, pred_desc, polarity):
